@@ -386,6 +386,18 @@ Definition decA (ty : N) (payload : bytes) : res packet :=
    pinned tree: no (finding F3, repaired by the fix: commit in /repo); now yes *)
 Definition guardB : bool := true.
 
+(* codec B's InitPacket / VersionPacket.UnmarshalBinary on a frame body (type byte first): the version, then extension pairs
+   until the buffer is exhausted - each pair decoded into its own value *)
+Definition decB_initversion (body : bytes) : res packet :=
+  '(ty, b) <- u8_dec_safe body ;;
+  if ty =? t_init then
+    '(fs, _) <- parse [KU32; KPairs] b ;;
+    match fs with [FU32 v; FPairs e] => Ok (PInit v e) | _ => Err EOther end
+  else if ty =? t_version then
+    '(fs, _) <- parse [KU32; KPairs] b ;;
+    match fs with [FU32 v; FPairs e] => Ok (PVersion v e) | _ => Err EOther end
+  else Err EUnhandledType.
+
 (* RequestPacket.UnmarshalFrom on a frame body (type byte first) *)
 Definition decB_request (body : bytes) : res packet :=
   '(ty, b) <- u8_dec_safe body ;;
